@@ -10,6 +10,7 @@ from prompt_toolkit.filters import (
     is_multiline,
     vi_insert_mode,
 )
+from prompt_toolkit.filters.app import vi_insert_multiple_mode
 from prompt_toolkit.key_binding.key_processor import KeyPress, KeyPressEvent
 from prompt_toolkit.keys import Keys
 
@@ -150,8 +151,10 @@ def load_basic_bindings() -> KeyBindings:
     handle("end")(get_by_name("end-of-line"))
     handle("left")(get_by_name("backward-char"))
     handle("right")(get_by_name("forward-char"))
-    handle("c-up")(get_by_name("previous-history"))
-    handle("c-down")(get_by_name("next-history"))
+    # Not while editing with multiple cursors: replacing the text would leave
+    # `Buffer.multiple_cursor_positions` pointing outside of it.
+    handle("c-up", filter=~vi_insert_multiple_mode)(get_by_name("previous-history"))
+    handle("c-down", filter=~vi_insert_multiple_mode)(get_by_name("next-history"))
     handle("c-l")(get_by_name("clear-screen"))
 
     handle("c-k", filter=insert_mode)(get_by_name("kill-line"))
